@@ -119,7 +119,7 @@ fn compress_by_hand(rng: &mut Rng, ns: &[Vec<u8>]) -> (Vec<u8>, Vec<usize>, usiz
 
 fn names_family(c: &mut Ctx) {
     let fam = "names";
-    let total = c.total(50_000, 1_000_000);
+    let total = c.total(50_000, 3_000_000);
     for idx in c.cases(fam, total) {
         if c.out_of_time() {
             break;
@@ -266,7 +266,7 @@ fn names_family(c: &mut Ctx) {
 
 fn charstr_family(c: &mut Ctx) {
     let fam = "charstr";
-    let total = c.total(30_000, 600_000);
+    let total = c.total(30_000, 1_800_000);
     for idx in c.cases(fam, total) {
         let mut rng = c.case_rng(fam, idx);
         let base: Vec<u8> = (0..rng.range(0, 12)).map(|_| *rng.pick(&[b'a', b'A', b'b', b'Z', b'z', 0x40, 0x5b, 0x60, 0x7b, 0, 0xff, b' '])).collect();
@@ -378,7 +378,7 @@ struct Val {
 
 fn rdata_family(c: &mut Ctx) {
     let fam = "rdata";
-    let total = c.total(100_000, 2_000_000);
+    let total = c.total(100_000, 6_000_000);
     for idx in c.cases(fam, total) {
         if c.out_of_time() {
             break;
@@ -517,7 +517,7 @@ fn rdata_family(c: &mut Ctx) {
 
 fn records_family(c: &mut Ctx) {
     let fam = "records";
-    let total = c.total(50_000, 1_000_000);
+    let total = c.total(50_000, 3_000_000);
     for idx in c.cases(fam, total) {
         if c.out_of_time() {
             break;
@@ -626,6 +626,7 @@ fn records_family(c: &mut Ctx) {
 }
 
 pub fn run(c: &mut Ctx) {
+    c.families(4);
     names_family(c);
     charstr_family(c);
     rdata_family(c);
